@@ -156,7 +156,8 @@ def judge_case(case, rec, log, start_factor=None):
                     verdicts.append((linked, ("oracle", str(e), 0.0)))
                     continue
                 verdicts.append((linked, compare_group(ev["groups"][gi], ref, ("linked" if linked else "unlinked"))))
-            # NNLS groups in the regime of known finding F13 (eps*kappa^2 not small): if the penalty is
+            # NNLS groups in the regime of known finding F13 (eps*kappa^2 not small, or gradient scale above what
+            # scipy's absolute tolerance resolves / overflow of the normal equations): if the penalty is
             # not the optimum but equals what scipy's solver yields on the reference matrices, the
             # deviation is F13's; if it matches neither, conditioning leaves the case undecided.
             if gd["residual_function"] == "non_negative_least_squares" and not any(v[0] is None for _, v in verdicts):
@@ -166,7 +167,7 @@ def judge_case(case, rec, log, start_factor=None):
                     try:
                         O.NNLS_SOLVER[0] = "scipy"
                         ref2 = O.evaluate_group(c, g, pv, data, bool(linked))
-                        regime = regime or ref2["kappa"] ** 2 >= T.C * 20
+                        regime = regime or ref2["kappa"] ** 2 >= T.C * 20 or ref2["huge"]
                         second.append((linked, compare_group(ev["groups"][gi], ref2, "linked" if linked else "unlinked")))
                     except Exception:  # noqa
                         regime = True
